@@ -182,3 +182,20 @@ Example update_example :
   in_index index 0 = false /\ in_index index 2 = false /\
   update_children nat nat (fun s => [100 + s]) children index 1 [(DKeep, 10); (DKeep, 11)] = Some children.
 Proof. repeat split; vm_compute; reflexivity. Qed.
+
+(* sizes: the boundaries *)
+Example sizes_boundaries :
+  sizes_opts static_sizes 100 30 true = Some [] /\ sizes_opts static_sizes 101 30 true = Some [OptLTH 101] /\
+  sizes_opts static_sizes 100 31 true = Some [OptPC 31] /\ sizes_opts static_sizes 101 31 true = Some [OptPC 31; OptLTH 101] /\
+  sizes_opts static_sizes 5 40 false = Some [] /\ sizes_opts static_sizes 5 100 true = None.
+Proof. repeat split; vm_compute; reflexivity. Qed.
+
+(* update_statements stores an index that points at the NEW positions: children [blank; a; comment; b], insert z before a *)
+Example update_index_example :
+  let children := [1; 2; 3; 4] in
+  let index := [(1, 2, 0, 1); (3, 4, 1, 2)] in
+  let script := [(DIns, 9); (DKeep, 10); (DKeep, 11)] in
+  update_statements_children nat nat (fun _ => [0]) children [false; false; false; false] index script = Some [1; 0; 2; 3; 4] /\
+  update_statements_index nat nat (fun _ => [0]) children [false; false; false; false] index script =
+    Some [(1, 2, 0, 1); (2, 3, 1, 2); (4, 5, 2, 3)].
+Proof. split; vm_compute; reflexivity. Qed.
